@@ -437,6 +437,7 @@ class List(list, base.Symbolic, pg_typing.CustomTyping):
           old_value.sym_setparent(None)
     else:
       super().append(new_value)
+    self._invalidate_content_caches()
     return base.FieldUpdate(
         self.sym_path + index, self,
         self._value_spec.element if self._value_spec else None,
@@ -604,6 +605,7 @@ class List(list, base.Symbolic, pg_typing.CustomTyping):
       # Detach the deleted value from the object tree.
       if isinstance(old_value, base.TopologyAware):
         old_value.sym_setparent(None)
+      self._invalidate_content_caches()
       updates.append(
           base.FieldUpdate(
               self.sym_path + i, self,
@@ -745,6 +747,7 @@ class List(list, base.Symbolic, pg_typing.CustomTyping):
       if isinstance(old_value, base.TopologyAware):
         old_value.sym_setparent(None)
     super().clear()
+    self._invalidate_content_caches()
 
   def sort(self, *, key=None, reverse=False) -> None:
     """Sorts the items of the list in place.."""
@@ -753,6 +756,7 @@ class List(list, base.Symbolic, pg_typing.CustomTyping):
     super().sort(key=key, reverse=reverse)
     # The items have moved: re-index the children.
     self._update_children_paths(self.sym_path, self.sym_path)
+    self._invalidate_content_caches()
 
   def reverse(self) -> None:
     """Reverse the elements of the list in place."""
@@ -761,6 +765,7 @@ class List(list, base.Symbolic, pg_typing.CustomTyping):
     super().reverse()
     # The items have moved: re-index the children.
     self._update_children_paths(self.sym_path, self.sym_path)
+    self._invalidate_content_caches()
 
   def custom_apply(
       self,
